@@ -81,10 +81,17 @@ struct NodeNet {
 
 pub type AdversaryFn = Box<dyn FnMut(&Datagram, &mut Rng) -> Vec<Delivery>>;
 
+/// Interface back-pressure: for a datagram that node `src` hands to its network interface,
+/// how long (virtual ms) `send_to` blocks before the interface takes it. While it blocks the
+/// sending stack keeps whatever it holds (rs-matter: the single TX buffer).
+pub type StallFn = Box<dyn FnMut(usize, &[u8], &mut Rng) -> u64>;
+
 struct HubInner {
     nodes: Vec<NodeNet>,
     tap: Vec<WireEvent>,
     adversary: Option<AdversaryFn>,
+    stall: Option<StallFn>,
+    stalled: u64,
     rng: Rng,
     seq: u64,
     record: bool,
@@ -122,6 +129,8 @@ impl NetHub {
             nodes,
             tap: Vec::new(),
             adversary: None,
+            stall: None,
+            stalled: 0,
             rng: Rng::new(seed),
             seq: 0,
             record: true,
@@ -148,6 +157,29 @@ impl NetHub {
         // Take the old one out before dropping it (it may hold an Rc to us).
         let old = core::mem::replace(&mut self.0.borrow_mut().adversary, adv);
         drop(old);
+    }
+
+    pub fn set_stall(&self, stall: Option<StallFn>) {
+        let old = core::mem::replace(&mut self.0.borrow_mut().stall, stall);
+        drop(old);
+    }
+
+    /// Number of datagrams whose `send_to` was made to block.
+    pub fn stalled(&self) -> u64 {
+        self.0.borrow().stalled
+    }
+
+    fn stall_ms(&self, src: usize, data: &[u8]) -> u64 {
+        let mut h = self.0.borrow_mut();
+        let Some(mut f) = h.stall.take() else {
+            return 0;
+        };
+        let ms = f(src, data, &mut h.rng);
+        h.stall = Some(f);
+        if ms > 0 {
+            h.stalled += 1;
+        }
+        ms
     }
 
     pub fn set_record(&self, on: bool) {
@@ -369,6 +401,10 @@ impl Endpoint {
 
 impl NetworkSend for Endpoint {
     async fn send_to(&mut self, data: &[u8], addr: Address) -> Result<(), Error> {
+        let ms = self.hub.stall_ms(self.idx, data);
+        if ms > 0 {
+            super::exec::sleep_ms(ms).await;
+        }
         self.hub.send(self.idx, data, addr);
         Ok(())
     }
